@@ -258,8 +258,17 @@ class FlowTranslator:
         if isinstance(st, ast.AnnAssign):
             if st.value is None:
                 return ""
-            return f"SAssign [{_s(self.targets(st.target)[0])}] {self.e(st.value)}"
+            tg = st.target
+            if isinstance(tg, ast.Attribute) and isinstance(tg.value, ast.Name) and tg.value.id in self.locals:
+                return f"SSetAttr {_s(tg.value.id)} {_s(tg.attr)} {self.e(st.value)}"
+            return f"SAssign [{_s(self.targets(tg)[0])}] {self.e(st.value)}"
         if isinstance(st, ast.AugAssign):
+            tg = st.target
+            if (isinstance(tg, ast.Subscript) and isinstance(tg.value, ast.Name) and tg.value.id in self.locals and type(st.op) in BIN
+                    and isinstance(tg.slice, (ast.Name, ast.Constant))):
+                # x[i] op= e  ==>  x = setitem(x, i, x[i] op e)   (i is a name or a constant: evaluating it twice is harmless)
+                x, i = self.e(tg.value), self.e(tg.slice)
+                return f"SAssign [{_s(tg.value.id)}] (PCall {_s('setitem')} [{x}; {i}; (PBin {_s(BIN[type(st.op)])} (PSub {x} {i}) {self.e(st.value)})])"
             if not isinstance(st.target, ast.Name) or type(st.op) not in BIN:
                 raise Unsupported("augmented assignment")
             return f"SAssign [{_s(st.target.id)}] (PBin {_s(BIN[type(st.op)])} (PName {_s(st.target.id)}) {self.e(st.value)})"
